@@ -342,7 +342,7 @@ def r13_2_generic_kinds(ctx):
     readers = []
     for fi in P.yatiml_functions():
         for n in walk_function(fi.node):
-            if isinstance(n, ast.Attribute) and n.attr == '__origin__':
+            if (isinstance(n, ast.Attribute) and n.attr == '__origin__') or (isinstance(n, ast.Call) and call_name(n) == 'get_origin'):
                 if fi.name not in ('is_generic_sequence', 'is_generic_mapping', 'is_generic_union'):
                     readers.append((fi, n))
             if isinstance(n, ast.Compare) and any(norm(c) in ('List', 'Dict', 'Sequence', 'Mapping', 'MutableSequence', 'MutableMapping',
@@ -362,8 +362,9 @@ def r13_2_generic_kinds(ctx):
                 sides = [n.left, n.comparators[0]]
 
                 def is_origin(x):
-                    return '__origin__' in f_.alpha.text(x) or (isinstance(x, ast.Name) and any(
-                        '__origin__' in norm(v) for v in assigned_from(f_, x.id)))
+                    t_ = f_.alpha.text(x)
+                    return '__origin__' in t_ or 'get_origin(' in t_ or (isinstance(x, ast.Name) and any(
+                        '__origin__' in norm(v) or 'get_origin(' in norm(v) for v in assigned_from(f_, x.id)))
                 if not any(is_origin(x) for x in sides):
                     continue
                 other = sides[1] if is_origin(sides[0]) else sides[0]
